@@ -600,7 +600,7 @@ func (p *c14) RunCase(i int) *core.CaseResult {
 
 func (p *c14) Meta() core.Meta {
 	return core.Meta{
-		Rule: "one case per (select list of 1-2 (thorough 3) distinct items over {id, HSLOW, ASYNC.HSLOW, ASYNC.HFAST, SPINASYNC.HSLOW, SPIN.HSPIN, ONCE.HONCE, ONCE.HNILONCE (returns NULL), ASYNC.HMID, ASYNC.HFAILODD, SPINASYNC.HPANICODD, ASYNC.HPANICODD (calls that fail or panic on odd rows)}, form in {direct, derived table, CTE, row-scoped subquery, nested FROM (array of arrays), derived table as left / right join side, CTE over a nested FROM, three-dimensional FROM, derived table awaited by the outer query}, 0-2 (thorough 3) rows) plus immediate functions under ASYNC/SPIN/SPINASYNC (built-in ones and one registered after queries have already run); each case = stateless exploration of every schedule with <= 2 (thorough 3) preemptions of the real engine (library go statements, mutex / wait-group operations and the harness functions' latency points are scheduling points); oracle on every schedule from the event log and the result. non-trivial = more than one schedule was executed; one re-execution case (a Query executed again after an execution that failed at every row behind ASYNC.HSLOW / SPINASYNC.HSLOW / ASYNC.HFAST, 1-2 rows, every schedule within the bound)",
+		Rule: "one case per (select list of 1-2 (thorough 3) distinct items over {id, HSLOW, ASYNC.HSLOW, ASYNC.HFAST, SPINASYNC.HSLOW, SPIN.HSPIN, ONCE.HONCE, ONCE.HNILONCE (returns NULL), ASYNC.HMID, ASYNC.HFAILODD, SPINASYNC.HPANICODD, ASYNC.HPANICODD (calls that fail or panic on odd rows)}, form in {direct, derived table, CTE, row-scoped subquery, nested FROM (array of arrays), derived table as left / right join side, CTE over a nested FROM, three-dimensional FROM, derived table awaited by the outer query}, 0-2 (thorough 3) rows) plus immediate functions under ASYNC/SPIN/SPINASYNC (built-in ones and one registered after queries have already run); each case = stateless exploration of every schedule with <= 2 (thorough 3) preemptions of the real engine (library go statements, mutex / wait-group operations and the harness functions' latency points are scheduling points); oracle on every schedule from the event log and the result. non-trivial = more than one schedule was executed; one re-execution case (a Query executed again after an execution that failed at every row behind ASYNC.HSLOW / SPINASYNC.HSLOW / ASYNC.HFAST, 1-2 rows, every schedule within the bound); every item also on rows with equal argument values; a 13th item AWAIT(ASYNC.f(x))",
 		Assumptions: []string{
 			"harness functions are deterministic and model latency only by yielding to the scheduler; their results do not depend on the schedule",
 			"scheduling points at sync operations, go statements, thread exit and harness yields (sufficient for race-free executions, DRF-SC; races are C13's matter)",
